@@ -8,16 +8,18 @@ SPEC = dict(
                  n_quick=150, n_thorough=2500),
     runner=dict(imports=["From ZV Require Import Lib.Base Model.Tombstone."], case_type="c17case",
                 mismatch_fn="c17_mismatches", shard=150),
-    rule="12 real shards per run (1-4 repositories merged with index.Merge, 1-4 files each over shared file names and words, "
-         "some embedded FileTombstones) x sidecar absent / empty / pre-seeded (tombstones, file tombstones, renamed repo, other "
+    rule="12 real shards per run (1-5 repositories, 75% >= 3, merged with index.Merge, 1-4 files each over shared file names and words, "
+         "some embedded FileTombstones, Metadata maps over 2 fields x 3 values) x sidecar absent / empty / pre-seeded (tombstones, file tombstones, renamed repo, other "
          "metadata changed) / shard missing x 1-5 Set/UnsetTombstone operations (existing or absent id, 25% repeats and 35% inverses of the "
-         "previous op, 10% injected os.CreateTemp failure, 20% injected os.Rename failure) x 3 boolean queries (RepoSet, file-name and "
-         "content substrings, And/Or/Not/Const) evaluated with Search and List on a freshly reloaded shard before and after every op. "
-         "distinct by (template, seed sidecar, op history, queries); non-trivial = compound shard (>= 2 repositories) and >= 2 ops.",
+         "previous op, 10% injected os.CreateTemp failure, 20% injected os.Rename failure) x 4 queries (the first a bare repo-level filter: query.Repo / RepoRegexp with "
+         "anchored alternations, RepoSet over embedded and renamed names, RepoIDs, Meta - over subsets of the shard's repositories incl. all / all but one; "
+         "the others boolean combinations of those with file-name and content substrings, And/Or/Not/Const) evaluated with Search and List on a freshly reloaded shard before and after every op. "
+         "Go oracle per observation: exact Search result against a reference evaluator, List bounds, hidden repositories/paths; per successful op: results of every "
+         "OTHER alive repository identical before/after. distinct by (template, seed sidecar, op history, queries); non-trivial = compound shard (>= 2 repositories) and >= 2 ops.",
     trusted_base=["correspondence harness harness/overlay/index/zz_verif_c17_test.go (generator, canonicalisation, Go oracle) and the fault "
                   "injection: tombstones.go of the working tree with os.Rename/os.CreateTemp textually redirected to hooks (overlay, generated at check time)",
-                  "abstraction of zoekt.Repository to (ID, Name, Tombstone, FileTombstones, digest of the rest) and of JSON (un)marshalling as the identity on it (validated by the reload comparison)",
-                  "queries modelled as boolean combinations of arbitrary predicates on repository name / document; the match-tree evaluation itself is C01's subject"],
+                  "abstraction of zoekt.Repository to (ID, Name, Tombstone, FileTombstones, Metadata pairs, digest of the rest) and of JSON (un)marshalling as the identity on it (validated by the reload comparison)",
+                  "queries modelled as boolean combinations of arbitrary predicates on (repository id, name, metadata) / document; the match-tree evaluation itself is C01's subject"],
     assumptions=["well-formed shard directory (sidecar lists as many repositories as the shard; every document belongs to a listed repository) for the search theorems",
                  "queries do not depend on the Tombstone flag itself"],
 )
